@@ -40,6 +40,13 @@ pub fn effective_cofactor(cfg: &str) -> Option<num_bigint::BigUint> {
     }
 }
 
+/// configurations whose clear_cofactor is an optimised (endomorphism-based) map for which no
+/// standardised effective cofactor is written down in the check: only "lands in the subgroup" is required
+pub fn clear_cofactor_is_optimised(cfg: &str) -> bool {
+    matches!(cfg, "c_bls12_377_g1" | "c_bls12_377_g2" | "c_bn254_g2" | "c_bw6_761_g1" | "c_bw6_761_g2" | "c_bw6_767_g1" | "c_bw6_767_g2"
+                | "c_cp6_782_g1" | "c_cp6_782_g2")
+}
+
 /// configurations whose `mul_projective` is GLV-based (only meaningful on the prime-order subgroup)
 pub fn glv_backed_mul(cfg: &str) -> bool {
     matches!(cfg, "bls12_381_g1" | "c_bls12_381_g1" | "c_bls12_377_g1")
